@@ -151,6 +151,10 @@ B('C04', 'adjacent pairs only', (D, "for t1, t2 in combinations(transitions, 2):
 B('C04', 'sort after create', (D, "        transitions = self._sort_transitions(transitions)\n\n        # Should the step consume an event?\n        event = None if transitions[0].event is None else event\n\n        return self._create_steps(event, transitions)",
    "        event = None if transitions[0].event is None else event\n        steps = self._create_steps(event, transitions)\n        transitions = self._sort_transitions(transitions)\n        return steps"))
 B('C04', 'consume before compute', (D, "        # Compute steps\n        computed_steps = self._compute_steps()\n", "        self._select_event(consume=True)\n        computed_steps = self._compute_steps()\n"))
+
+# a memo that lives during one call of _sort_transitions: sound when the key determines the value, a defect when it does not (the LCA differs per pair)
+T('C04', 'per-call memo of the allowed targets keyed by (source, lca)', (D, '            for t1, t2 in combinations(transitions, 2):\n', '            allowed_targets = dict()\n            for t1, t2 in combinations(transitions, 2):\n'), (D, '                for transition in [t1, t2]:\n                    last_before_lca = transition.source\n                    for state in self._statechart.ancestors_for(transition.source):\n                        if state == lca:\n                            break\n                        last_before_lca = state\n                    # Target must be a descendant (or self) of this state\n                    if (transition.target and (transition.target not in [\n                            last_before_lca] + self._statechart.descendants_for(last_before_lca))):\n', '                for transition in [t1, t2]:\n                    region = (transition.source, lca)\n                    if region not in allowed_targets:\n                        last_before_lca = transition.source\n                        for state in self._statechart.ancestors_for(transition.source):\n                            if state == lca:\n                                break\n                            last_before_lca = state\n                        allowed_targets[region] = [last_before_lca] + self._statechart.descendants_for(last_before_lca)\n                    # Target must be a descendant (or self) of this state\n                    if (transition.target and (transition.target not in allowed_targets[region])):\n'))
+B('C04', 'per-call memo of the allowed targets keyed by the source only', (D, '            for t1, t2 in combinations(transitions, 2):\n', '            allowed_targets = dict()\n            for t1, t2 in combinations(transitions, 2):\n'), (D, '                for transition in [t1, t2]:\n                    last_before_lca = transition.source\n                    for state in self._statechart.ancestors_for(transition.source):\n                        if state == lca:\n                            break\n                        last_before_lca = state\n                    # Target must be a descendant (or self) of this state\n                    if (transition.target and (transition.target not in [\n                            last_before_lca] + self._statechart.descendants_for(last_before_lca))):\n', '                for transition in [t1, t2]:\n                    region = transition.source\n                    if region not in allowed_targets:\n                        last_before_lca = transition.source\n                        for state in self._statechart.ancestors_for(transition.source):\n                            if state == lca:\n                                break\n                            last_before_lca = state\n                        allowed_targets[region] = [last_before_lca] + self._statechart.descendants_for(last_before_lca)\n                    # Target must be a descendant (or self) of this state\n                    if (transition.target and (transition.target not in allowed_targets[region])):\n'))
 B('C04', 'conflict test for t1 only', (D, "for transition in [t1, t2]:", "for transition in [t1]:"))
 B('C04', 'swallow execution errors', (D, "        # Compute steps\n        computed_steps = self._compute_steps()\n", "        try:\n            computed_steps = self._compute_steps()\n        except Exception:\n            computed_steps = []\n"))
 B('C04', 'decision phase writes memory', (D, "        # Compute transitions order\n        transitions = self._sort_transitions(transitions)", "        self._memory.clear()\n        transitions = self._sort_transitions(transitions)"))
